@@ -81,6 +81,28 @@ TEMPLATES = [
 (assert (h p))
 (assert (h (not p)))
 ''',
+    # ... in the second / third argument, at the top and nested, for let
+    # and quantifier binders, with several bound names
+    '''(declare-const k Int)
+(declare-const y Int)
+(declare-const z Int)
+(define-fun f ((a Int) (b Int)) Int (let ((y 1)) (+ (* 2 a) b y)))
+(define-fun g ((a Int) (b Int) (c Int)) Int (let ((k 2) (z (+ a 1))) (- (+ a k) (* b z) c)))
+(assert (> (f z y) 0))
+(assert (> (f z (+ y 5)) (f 1 (* 2 (- y)))))
+(assert (= (g 1 2 k) (g k 1 2)))
+(assert (< (g 0 (+ z 1) 3) (g 1 1 (* (+ z k) 2))))
+''',
+    '''(declare-const p Bool)
+(declare-const q Bool)
+(define-fun h ((a Bool) (b Bool)) Bool (forall ((p Bool)) (or a (and b p))))
+(define-fun e ((a Bool) (b Bool) (c Bool)) Bool (exists ((q Bool) (p Bool)) (and (or a q) (=> b p) c)))
+(assert (h q p))
+(assert (h q (not p)))
+(assert (e p true false))
+(assert (e true q (and p q)))
+(assert (e false true (not (=> q false))))
+''',
     # previous bit-width reductions
     '''(declare-const __w (_ BitVec 2))
 (define-fun _w () (_ BitVec 5) ((_ zero_extend 3) __w))
